@@ -230,7 +230,7 @@ def _series(chk):
             [LI + ":_apply_poly_transform", CL + ":_apply_coord_transform"], "B3 exact ring normal form", th)
 
 
-def _whole(chk, N):
+def _whole(chk, N, partial_only=False):
     import hiten.algorithms.hamiltonian.center._lie as cl
     import hiten.algorithms.hamiltonian.normal._lie as nl
     from numba.typed import List
@@ -310,6 +310,8 @@ def _whole(chk, N):
                 [CL + ":_lie_transform", CL + ":_lie_expansion", CL + ":_apply_coord_transform", LI + ":_apply_poly_transform",
                  LI + ":_solve_homological_equation"], "B3 exact ring normal form",
                 lambda modes=modes: run("partial", modes, keep_q if N <= 4 else keep_t))
+    if partial_only:
+        return
     chk.obl(f"full normal form on a generic Hamiltonian (N = {N}): only resonant monomials (kq == kp) survive",
             "K1 identity (bounded degree)", [NL + ":_lie_transform", NL + ":_select_nonresonant_terms"],
             "B3 exact ring normal form", lambda: run("full", (1.5, 7 / 3, 2.2), keep_q if N <= 4 else keep_t))
